@@ -7,7 +7,9 @@ Decided structural clauses:
  D3 accumulator discipline per strategy (incremental with paired removal, or reset before every evaluation)
  D4 reset before recompute: whatever makes *all* areas "to be evaluated" again is followed by a reset of the
     operation accumulator (violated today at three constructs: known findings)
- D5 the dimension-adaptive integral cache is keyed by the level vector of the component it stores
+ D5 the dimension-adaptive integral cache is keyed by the level vector of the component it stores, and the driver cannot stop
+    between a refinement of the index set and the recomputation of the combined value
+ D6 the publicly exposed points/weights of a component grid are produced by the grid object the operation integrates with
 Not decided: numerical equality with an independent recomputation, the quadrature identity."""
 import ast
 
@@ -111,6 +113,21 @@ def run(prog, ctx):
                 ctx.check(ok, "C05.D1", R.key_of(fi, "optout:%s" % src(c.args[0]) if c.args else "optout"), fi.loc(c),
                           "evaluation for error estimates updates neither the container nor the combined result",
                           "`%s` skips the combined result but still adds to the container sum" % src(c)[:120])
+
+    # throw-away evaluations (no container given) must not touch the combined result either
+    for fi in prog.functions.values():
+        for c in R.calls_in(fi.node, method="evaluate_area"):
+            if not (isinstance(c.func.value, ast.Attribute) and c.func.value.attr == "operation"):
+                continue
+            kws = {k.arg: k.value for k in c.keywords}
+            cont = c.args[3] if len(c.args) > 3 else kws.get("refinement_container")
+            if isinstance(cont, ast.Constant) and cont.value is None:
+                flag = c.args[5] if len(c.args) > 5 else kws.get("apply_to_combi_result")
+                ok = isinstance(flag, ast.Constant) and flag.value is False
+                ctx.check(ok, "C05.D1", R.key_of(fi, "throwaway:%s" % (src(c.args[0]) if c.args else "?")), fi.loc(c),
+                          "an evaluation without container (error estimate) does not touch the combined result",
+                          "`%s` evaluates an area only for an error estimate (no container) but still adds it to the combined result; "
+                          "it is never subtracted again" % src(c)[:140])
 
     # ------------------------------------------------------------------ D2
     ar = prog.func(RC + ".apply_remove")
@@ -317,6 +334,21 @@ def run(prog, ctx):
             ctx.check(not rebound, "C05.D5", R.key_of(pc, "cache-inputs"), pc.loc(st),
                       "the other inputs of the cached integral are not re-bound inside the refinement loop",
                       "inputs %s of the cached integral are re-bound inside the loop but are not part of the cache key" % rebound)
+    # the reported value belongs to the returned scheme: after a refinement of the index set no path leaves the driver without
+    # re-starting the accumulation (the in-loop reset of the accumulator dominates the accumulation loop)
+    cpc = cfg_of(pc)
+    upds = [R.cfg_node(pc, x) for x in R.calls_in(pc.node, method="update_adaptive_combi")]
+    resets_in_loop = []
+    for st in walk_local(pc.node):
+        if isinstance(st, ast.Assign) and isinstance(st.targets[0], ast.Name) and st.targets[0].id == "combiintegral" \
+                and isinstance(st.value, ast.Constant) and st.value.value == 0 and R.enclosing_loops(st):
+            resets_in_loop.append(cpc.node_of(st))
+    ctx.floor("C05.D5.driver", len(upds), 1, "index-set refinements in perform_combi")
+    okd = bool(resets_in_loop) and all(cpc.must_pass_through(u, [cpc.exit], resets_in_loop) for u in upds)
+    ctx.check(okd, "C05.D5", R.key_of(pc, "result-of-returned-scheme"), pc.loc(),
+              "after every refinement of the index set the combination is recomputed before the driver can stop",
+              "perform_combi can stop after update_adaptive_combi without recomputing combiintegral: the reported value belongs to the "
+              "scheme before the last refinement, the returned scheme is the refined one")
     # the accumulation uses the looked-up / computed integral of the same component
     acc_ok = False
     for st in walk_local(pc.node):
@@ -326,6 +358,56 @@ def run(prog, ctx):
                 acc_ok = True
     ctx.check(acc_ok, "C05.D5", R.key_of(pc, "weighted-sum"), pc.loc(),
               "combiintegral accumulates integral * coefficient", "combiintegral no longer accumulates integral * component coefficient")
+
+    # ------------------------------------------------------------------ D6
+    check_public_quadrature(prog, ctx)
+
+
+def check_public_quadrature(prog, ctx):
+    """D6: every get_points_and_weights_component_grid of the StandardCombi hierarchy builds the component grid on self.grid
+    (the grid object the operation integrates with) from its own level-vector argument."""
+    sc = prog.cls("StandardCombi.StandardCombi")
+    n = 0
+    claimed = ("StandardCombi.StandardCombi", "spatiallyAdaptiveSingleDimension2.SpatiallyAdaptiveSingleDimensions2")
+    for fi in prog.overrides(sc, "get_points_and_weights_component_grid"):
+        if fi.cls.qual not in claimed:
+            continue        # the statement claims this clause for the standard and the dimension-wise strategy only
+        ctx.touch(fi)
+        n += 1
+        tm = Terms(fi.node)
+        lv = fi.params[1]
+        problems = []
+        grid = ("a", ("n", fi.self_name), "grid")
+        gets = R.calls_in(fi.node, method="get_points_and_weights")
+        sets = [x for x in R.calls_in(fi.node) if isinstance(x.func, ast.Attribute) and x.func.attr in ("set_grid", "setCurrentArea")]
+        if not gets or not sets:
+            problems.append("no grid set-up / get_points_and_weights call")
+        for x in gets + sets:
+            if tm.term(x.func.value) != grid:
+                problems.append("`%s` works on %s instead of self.grid, the grid the operation integrates with" % (src(x)[:60], src(x.func.value)))
+        for x in sets:
+            if not any(any(sub == ("n", lv) for sub in subterms(tm.term(a))) for a in x.args):
+                problems.append("the grid is not set up from the requested level vector `%s`" % lv)
+        for r in R.return_paths(fi)[0]:
+            t = tm.term(r.ast.value)
+            g = [tm.term(x) for x in gets]
+            if not (t in g or (t[0] == "tuple" and len(t) == 3 and g and t[1] == ("unpack", g[0], (0,)) and t[2] == ("unpack", g[0], (1,)))):
+                problems.append("the returned pair is not the grid's (points, weights)")
+        ctx.check(not problems, "C05.D6", R.key_of(fi, "public-rule-on-operation-grid"), fi.loc(),
+                  "points and weights of a component grid come from self.grid set up for the requested level vector",
+                  "combined quadrature rule: " + "; ".join(problems))
+    ctx.floor("C05.D6", n, 2, "get_points_and_weights_component_grid implementations")
+    # and the operation integrates on that same grid object: the strategy hands self.grid to the operation
+    sd = prog.func("spatiallyAdaptiveSingleDimension2.SpatiallyAdaptiveSingleDimensions2.initialize_refinement")
+    ctx.touch(sd)
+    tm = Terms(sd.node)
+    ok = False
+    for x in R.calls_in(sd.node, method="init_dimension_wise"):
+        if x.args and tm.term(x.args[0]) == ("a", ("n", sd.self_name), "grid"):
+            ok = True
+    ctx.check(ok, "C05.D6", R.key_of(sd, "operation-gets-strategy-grid"), sd.loc(),
+              "the operation integrates on the strategy's self.grid",
+              "initialize_refinement no longer hands self.grid to operation.init_dimension_wise as the integration grid")
 
 
 def _check_removed_flow(prog, ctx, fi, rule="C05.D2", key=None):
